@@ -71,7 +71,7 @@ def repr_dps(n):
     a number with n-bit precision so that it can be uniquely
     reconstructed from the representation."""
     dps = prec_to_dps(n)
-    if dps == 15:
+    if dps == 15 and n <= 53:
         return 17
     return dps + 3
 
